@@ -62,6 +62,35 @@ def may_none(program):
     return out
 
 
+def none_profile(fi):
+    """Under which conditions fi returns None: one sorted guard list per explicit `return None` (conditions that dominate
+    it, polarity-normalised, hoisted locals expanded), plus a marker when control can fall off the end.  A tabled
+    "this None cannot arrive here" argument was made against this profile; when it changes the argument is void."""
+    from .model import expand_text, norm
+
+    f = Facts(fi.node)
+    out = []
+    for n in walk_function(fi.node):
+        if isinstance(n, ast.Return) and _is_none(n.value):
+            gs = []
+            for t, pol in f.conds_at(n):
+                t = t.strip()
+                while t.startswith("not "):
+                    t = t[4:].strip()
+                    if t.startswith("(") and t.endswith(")"):
+                        t = t[1:-1].strip()
+                    pol = not pol
+                try:
+                    t = expand_text(fi, ast.parse(t, mode="eval").body)
+                except SyntaxError:
+                    pass
+                gs.append("%s is %s" % (t, pol))
+            out.append("; ".join(sorted(gs)))
+    if any(k == "fall" for k, n, fa in f.exits):
+        out.append("<falls off the end>")
+    return sorted(out)
+
+
 class Use:
     __slots__ = ("fi", "call", "callee", "node", "how", "var")
 
